@@ -292,12 +292,13 @@ Definition constructible (v : pv) : bool := guard_ok v && dict_keys_ok false v.
 Definition cls_of (t : ty) : N * list ty := match t with TCls id fts => (id, fts) | _ => (0, []) end.
 
 (* routes: 0 to_cbor, 1 datum_hash consistent, 2 from_cbor(to_cbor x).to_cbor, 3 from_cbor(reference bytes).to_cbor,
-   4 to_dict, 5 from_dict(to_dict), 6 from_json(to_json), 9 construction succeeded *)
+   4 to_dict, 5 from_dict(to_dict), 6 from_json(to_json), 7 the object as the data of a Redeemer: the redeemer's
+   bytes are the 4-array  tag, index, <the bytes of route 0>, ex_units;  9 construction succeeded *)
 Definition typed_model (route : nat) (t : ty) (x : pv) : out :=
   let '(id, fts) := cls_of t in
   match route with
   | 0 => OB (to_cbor (pynorm x))
-  | 1 => if is_ok (to_cbor (pynorm x)) then OF true else OSkip
+  | 1 | 7 => if is_ok (to_cbor (pynorm x)) then OF true else OSkip
   | 2 => match to_cbor (pynorm x) with
          | Ok b => OB (do y <- typed_from_cbor id fts b; to_cbor y)
          | Err _ => OSkip
@@ -314,7 +315,7 @@ Definition typed_model (route : nat) (t : ty) (x : pv) : out :=
 
 Definition typed_expect (route : nat) (x : pv) : out :=
   match route with
-  | 1 | 9 => OF true
+  | 1 | 7 | 9 => OF true
   | 4 => OJ (Ok (json_of (abs x)))
   | _ => OB (Ok (plutus_bytes (abs x)))
   end%nat.
@@ -351,19 +352,27 @@ Definition v_int_ok (v : pv) : bool :=
   | PObj id _ _ => id <? two64
   | _ => true
   end.
-Definition v_nodup (v : pv) : bool := match v with PDict kvs => nodupb pv_eqb (map fst kvs) | _ => true end.
+(* the keys of a dict differ pairwise in content (keys equal in content are equal for Python or collapse when
+   converted: either way the reference map would have an entry more) *)
+Definition v_nodup (v : pv) : bool :=
+  match v with PDict kvs => nodupb data_eqb (map (fun kv => abs (fst kv)) kvs) | _ => true end.
 (* raw data inside a Datum / IndefiniteList field is in the canonical shape of its own content *)
 Definition rawc (w : pv) : bool := pv_eqb (raw_canon (abs w)) w && ints_ok (abs w) && nodup_keys (abs w).
 Definition v_rawc (v : pv) : bool := match v with PRaw w => rawc w | PTag _ _ => rawc v | _ => true end.
 
-(* dict keys of the typed part are int / bytes / ByteString (what a Python dict of a dataclass field can hold) *)
-Definition v_atom_keys (v : pv) : bool :=
+(* dict keys of the typed part are what a Python dict of a dataclass field can hold: int / bytes / ByteString, or
+   an instance of a typed class all of whose field values are such keys again (Map StakingCredential Integer,
+   Dict[Slot, ...]: constructors -- compact tag or tag 102, with or without fields, nested -- as map keys) *)
+Fixpoint hkey (v : pv) : bool :=
   match v with
-  | PDict kvs => forallb (fun kv => match fst kv with PInt _ | PBytes _ | PBStr _ => true | _ => false end) kvs
-  | _ => true
+  | PInt _ | PBytes _ | PBStr _ => true
+  | PObj _ _ fs => forallb hkey fs
+  | _ => false
   end.
+Definition v_hkeys (v : pv) : bool :=
+  match v with PDict kvs => forallb (fun kv => hkey (fst kv)) kvs | _ => true end.
 Definition n_typed (w : pv) : bool :=
-  v_int_ok w && v_no_pylist w && v_no_empty_ilist w && v_short_bytes w && v_nodup w && v_atom_keys w && v_rawc w.
+  v_int_ok w && v_no_pylist w && v_no_empty_ilist w && v_short_bytes w && v_nodup w && v_hkeys w && v_rawc w.
 Definition canon_typed (x : pv) : bool := vshape n_typed x.
 
 (* type-directed conditions: q t v at every typed position *)
@@ -429,11 +438,12 @@ Definition typed_region (route : nat) (t : ty) (x : pv) : nat :=
   let enc_prem := [(deep v_int_ok x, RG_bigint); (vshape v_int_ok x, RG_bigint); (vshape v_no_pylist x, RG_typed_pylist);
                    (vshape v_no_empty_ilist x, RG_typed_empty_ilist);
                    (vshape v_short_bytes x, RG_typed_long_in_container);
-                   (vshape v_nodup x, RG_dup_keys); (vshape v_atom_keys x, RG_key_build);
+                   (vshape v_nodup x, RG_dup_keys); (vshape v_hkeys x, RG_key_build);
                    (vshape v_rawc x, RG_typed_datum)] in
   match route with
-  | 0 | 1 => first_region enc_prem
-  | 2 | 3 => first_region (enc_prem ++ [(tshape q_list_empty t x, RG_typed_list_rt);
+  | 0 | 1 | 7 => first_region enc_prem
+  | 2 | 3 => first_region (enc_prem ++ [(hollow_keys (abs x), RG_key_decode);
+                                        (tshape q_list_empty t x, RG_typed_list_rt);
                                         (tshape q_no_flatten t x, RG_chunk)])
   | 4 => first_region [(no_tag_outside_raw x, RG_typed_to_dict_tag)]
   | 5 | 6 => first_region (enc_prem ++ [(tshape q_json_bytes t x, RG_typed_json_bytes);
